@@ -683,3 +683,71 @@ class StateInit(_Struct):
 
 
 CONTRACTS = CONTRACTS + [Validated(), StateInit()]
+
+
+class DispatchTwice(_Val):
+    """attribute_validator is a function of its argument alone: two consecutive calls with two
+    different annotations of the same shape each get a validator built from *their own* annotation
+    (no state shared between calls can make one annotation borrow another's validator)."""
+    file, func, name = FILE, "attribute_validator", "C05/validation:attribute_validator(independent-calls)"
+
+    def hasattr_(self, it, obj, name, node):
+        return V.VBool(z3.BoolVal(False))
+
+    def run(self, it):
+        st = it.st
+        st.contract = self
+        node, mod, chain = it.engine.repo.find(self.file, self.func)
+        ainfo = repo_class(it, "state/attributes.py", "AttributeAnnotation")
+        shape = st.fork("shape", [("Literal", True), ("Sequence", True), ("class", True)])
+        f = st.fun_of(it.module_symbol(mod, "attribute_validator"))
+        rets, anns = [], []
+        for k in (1, 2):
+            if shape == 0:
+                origin = it.lookup("Literal", Env(mod))
+                args = st.sym_ref(f"literal_values{k}", "list")
+                st.assume(st.get(args, "$lo") <= st.get(args, "$hi"))
+            elif shape == 1:
+                origin = it.lookup("Sequence", Env(mod))
+                inner_origin = V.VCls(st.fresh(f"item_class{k}", I))
+                st.assume(z3.Or(V.cid(inner_origin) < 0, V.cid(inner_origin) >= len(it.ct.names)))
+                st.assume(V.subclass(V.cid(inner_origin), it.ct.id("Enum")))
+                inner = it.instantiate(ainfo.cid, CallArgs(kw={"origin": inner_origin, "arguments": lib.new_list(it, [])}))
+                args = lib.new_list(it, [inner])
+                self_inner = inner_origin
+            else:
+                origin = V.VCls(st.fresh(f"user_class{k}", I))
+                st.assume(z3.Or(V.cid(origin) < 0, V.cid(origin) >= len(it.ct.names)))
+                st.assume(V.subclass(V.cid(origin), it.ct.id("Enum")))
+                args = lib.new_list(it, [])
+            ann = it.instantiate(ainfo.cid, CallArgs(kw={"origin": origin, "arguments": args}))
+            anns.append((origin, args, locals().get("self_inner")))
+            try:
+                rets.append(it.call_function(f, CallArgs([ann])))
+            except PyRaise:
+                st.check("P0:supported-annotations-are-never-refused", z3.BoolVal(False))
+                return
+        fv2 = st.fun_of(rets[1])
+        ok = isinstance(fv2, FuncV)
+        st.check("P0:a-validator-closure-is-returned", z3.BoolVal(bool(ok)))
+        if not ok:
+            return
+        origin2, args2, inner2 = anns[1]
+        if shape == 0:
+            got = fv2.env.lookup("elements")
+            st.check("P0:the-second-annotation-is-checked-against-its-own-literal-values",
+                     z3.BoolVal(got is not None) if got is None else got == args2)
+        elif shape == 1:
+            ev = fv2.env.lookup("element_validator")
+            fe = st.fun_of(ev) if ev is not None else None
+            got = fe.env.lookup("validated_type") if isinstance(fe, FuncV) else None
+            st.check("P0:the-second-annotation's-items-are-checked-against-its-own-item-type",
+                     z3.BoolVal(got is not None) if got is None else got == inner2)
+        else:
+            got = fv2.env.lookup("validated_type")
+            st.check("P0:the-second-annotation-is-checked-against-its-own-class",
+                     z3.BoolVal(got is not None) if got is None else got == origin2)
+        st.check("canary", z3.BoolVal(False), kind="canary")
+
+
+CONTRACTS = CONTRACTS + [DispatchTwice()]
